@@ -101,8 +101,8 @@ VARIANTS.append({"prop": "C05", "id": "C05:rename-state-vars", "expect": "S", "r
 
 # ----------------------------------------------------------------- C17
 V("C17", "unlink-before-write", "F", "R1", R + "cli/convert_dep5.py",
-  '    (project.root / "REUSE.toml").write_text(text)\n    (project.root / ".reuse/dep5").unlink()',
-  '    (project.root / ".reuse/dep5").unlink()\n    (project.root / "REUSE.toml").write_text(text)')
+  '    (project.root / "REUSE.toml").write_text(text, encoding="utf-8")\n    (project.root / ".reuse/dep5").unlink()',
+  '    (project.root / ".reuse/dep5").unlink()\n    (project.root / "REUSE.toml").write_text(text, encoding="utf-8")')
 V("C17", "no-refusal", "F", "R1", R + "cli/convert_dep5.py",
   '    if not (project.root / ".reuse/dep5").exists():\n        raise click.UsageError(_("No \'.reuse/dep5\' file."))\n', '')
 V("C17", "precedence-closest", "F", "R2", R + "convert_dep5.py", '"precedence": "aggregate",', '"precedence": "closest",')
@@ -491,7 +491,7 @@ for _p in ("C08", "C10"):
     B(_p, "rest-local-in-finder", HDP, "            comment = style.comment_at_first_character(text[index:])\n", "            rest = text[index:]\n            comment = style.comment_at_first_character(rest)\n")
     V(_p, "finder-window-bounded", "F", "R4", HDP, "            comment = style.comment_at_first_character(text[index:])\n", "            comment = style.comment_at_first_character(text[index : index + 4096])\n")
 B("C18", "extracted-text-local", RPT, '                    out.write(f"ExtractedText: <text>{fp.read()}</text>\\n")\n', '                    text = fp.read()\n                    out.write(f"ExtractedText: <text>{text}</text>\\n")\n')
-V("C17", "unlink-in-finally", "F", "R1", R + "cli/convert_dep5.py", '    (project.root / "REUSE.toml").write_text(text)\n    (project.root / ".reuse/dep5").unlink()\n', '    try:\n        (project.root / "REUSE.toml").write_text(text)\n    finally:\n        (project.root / ".reuse/dep5").unlink()\n')
+V("C17", "unlink-in-finally", "F", "R1", R + "cli/convert_dep5.py", '    (project.root / "REUSE.toml").write_text(text, encoding="utf-8")\n    (project.root / ".reuse/dep5").unlink()\n', '    try:\n        (project.root / "REUSE.toml").write_text(text, encoding="utf-8")\n    finally:\n        (project.root / ".reuse/dep5").unlink()\n')
 V("C16", "decode-surrogatepass", "F", "R5", EXP, 'errors="replace"', 'errors="surrogatepass"')
 B("C16", "decode-ignore", EXP, 'errors="replace"', 'errors="backslashreplace"')
 V("C15", "ignored-set-rooted", "F", "R6", R + "vcs.py", "        return {Path(file_) for file_ in all_files if file_}\n", "        return {self.root / file_ for file_ in all_files if file_}\n")
@@ -642,4 +642,12 @@ V("C04", "enum-alias", "F", "H", R + "__init__.py", 'DOT_LICENSE = "dot-license"
 for _p, _r in (("C07", "R12"), ("C02", "R11"), ("C04", "R9"), ("C01", "C02.R11")):
     V(_p, "empty-tag-stored-as-none", "F", _r, EXP, "        if parsed is not None:\n            expressions.add(parsed)\n", "        expressions.add(parsed)\n")
 V("C07", "empty-license-option-accepted", "F", "R12", R + "cli/common.py", "    if expression is None:\n        raise click.UsageError(\n            _(\"'{}' is not a valid SPDX expression.\").format(text)\n        )\n    return expression\n", "    return expression\n")
+# H9: explicit encodings
+V("C17", "reuse-toml-written-in-locale-encoding", "F", "H", R + "cli/convert_dep5.py", 'write_text(text, encoding="utf-8")', "write_text(text)")
+V("C08", "annotated-file-read-in-locale-encoding", "F", "H", ANP, 'with open(path, "r", encoding="utf-8", newline="") as fp:', 'with open(path, "r", newline="") as fp:')
+V("C03", "file-reports-equal-by-basename", "F", "R9", R + "report.py", "    def __hash__(self) -> int:\n        if self.chk_sum is not None:", "    def __eq__(self, other: object) -> bool:\n        return isinstance(other, FileReport) and (self.path.name, self.chk_sum) == (other.path.name, other.chk_sum)\n\n    def __hash__(self) -> int:\n        if self.chk_sum is not None:")
+V("C03", "file-reports-equal-by-path", "S", "", R + "report.py", "    def __hash__(self) -> int:\n        if self.chk_sum is not None:", "    def __eq__(self, other: object) -> bool:\n        return isinstance(other, FileReport) and (self.path, self.chk_sum) == (other.path, other.chk_sum)\n\n    def __hash__(self) -> int:\n        if self.chk_sum is not None:")
+V("C08", "annotated-file-read-leniently", "F", "R2", ANP, 'with open(path, "r", encoding="utf-8", newline="") as fp:', 'with open(path, "r", encoding="utf-8", errors="replace", newline="") as fp:')
+V("C14", "duplicate-guard-on-other-container", "F", "R12", R + "project.py", "            if identifier in license_files:\n", "            if identifier in self.licenses:\n")
+V("C10", "blank-copyright-accepted", "F", "R9", CAP, "        if any(not value.strip() for value in values or ()):\n", "        if False:\n")
 
